@@ -2,7 +2,7 @@
 real implementation run in the multi-party simulator.
 
 For a handful of straight-line programs over a prime field (ops: input by one sender, +, *, output to a
-set of receivers; no PRSS) and (m, t) in {(3,1), (4,1), (5,2)}:
+set of receivers; no PRSS) and (m, t) in {(3,1), (4,1), (5,2)} (and one (2,0) program):
 
   * crash-free run of the REAL runtime in the simulator: every frame on every link (src, dst, label ->
     operation index, payload -> field element) must equal, as a set, the model's crash-free closure
@@ -47,6 +47,9 @@ def fixed_programs():
     P.append(('p5a', 5, 2, 101, [
         ('in', 0), ('in', 1), ('in', 2), ('in', 3), ('in', 4), ('mul', 0, 1), ('add', 2, 3), ('mul', 5, 6),
         ('out', 7, (0, 1, 2, 3, 4)), ('out', 6, (4, 0)), ('out', 4, (2,))]))
+    # t = 0: _reshare and output exchange no messages at all; only the input dealings are on the wire
+    P.append(('p2a', 2, 0, 101, [
+        ('in', 0), ('in', 1), ('mul', 0, 1), ('add', 2, 0), ('out', 3, (0, 1)), ('in', 1), ('mul', 5, 3), ('out', 6, (1,)), ('out', 0, (0,))]))
     return P
 
 
@@ -125,16 +128,21 @@ def make_prog(ops, inputs, p, store, labels):
                 f.add_done_callback(cb)
                 futs.append(f)
                 vals.append(None)
-        for f in futs:           # everything has been issued; now wait (forever, if something never completes)
+        # everything has been issued; now wait (forever, if something never completes) for every output and
+        # every value, so that a crash-free run does not end before an unused operation has sent its messages
+        for f in futs:
             await f
+        for v in vals:
+            if v is not None:
+                await mpc.gather(v)
         return dict(out)
     return prog
 
 
-def real_run(prog_def, inputs, seed, cut=None):
+def real_run(prog_def, inputs, seed, cut=None, policy=None):
     """Run the program in the simulator. cut = (party, nbytes) or None.
     Returns dict(outputs={pid:{k:v}}, labels={k:pc}, order={pid:[(k,dst,framebytes)]}, wire=set((src,dst,k,val)), dead, res)."""
-    from lib.sim import Sim, Fifo
+    from lib.sim import Sim, Fifo, RandomOrder
     name, m, t, p, ops = prog_def
     store, labels = {}, {}
     sim = Sim(m, t, no_prss=True, seed=seed)
@@ -155,7 +163,8 @@ def real_run(prog_def, inputs, seed, cut=None):
         n0 = [len(sim.msglog[i]) for i in range(m)]
         if cut is not None:
             sim.net.cut[cut[0]] = cut[1]
-        res = sim.run(make_prog(ops, inputs, p, store, labels), Fifo(), idle_limit=IDLE)
+        pol = Fifo() if policy is None else RandomOrder(random.Random(policy[1]))
+        res = sim.run(make_prog(ops, inputs, p, store, labels), pol, idle_limit=IDLE)
         lab = labels.get(0, {})
         if any(labels.get(i) != lab for i in range(m)):
             return {'error': 'parties computed different labels'}
@@ -220,7 +229,23 @@ def canon_msgs(v):
 # ------------------------------------------------------------------------------------------------
 
 def run_part(ctx, programs=None):
-    """Correspondence run; returns a summary dict (also stored in ctx.extra['crash_model'])."""
+    """Correspondence run; returns a summary dict (also stored in ctx.extra['crash_model']).
+    Every simulator run re-imports m copies of mpyc; with PYTHONDONTWRITEBYTECODE set that recompiles all
+    sources each time (0.2 s per party), so bytecode caching into a private temporary directory is switched on
+    for the duration of this part (nothing is written to /repo; stale entries are impossible: pyc files are
+    validated against the source's mtime and size)."""
+    import sys, tempfile, shutil
+    saved = (sys.dont_write_bytecode, sys.pycache_prefix)
+    tmp = tempfile.mkdtemp(prefix='c36model-pyc-')
+    sys.dont_write_bytecode, sys.pycache_prefix = False, tmp
+    try:
+        return _run_part(ctx, programs)
+    finally:
+        sys.dont_write_bytecode, sys.pycache_prefix = saved
+        shutil.rmtree(tmp, ignore_errors=True)
+
+
+def _run_part(ctx, programs=None):
     rng = ctx.rng
     progs = list(programs) if programs is not None else fixed_programs()
     if programs is None:
@@ -232,11 +257,16 @@ def run_part(ctx, programs=None):
     summary = {'programs': 0, 'cuts': 0, 'cut_runs': 0, 'mid_frame_runs': 0, 'outputs_compared': 0, 'messages_compared': 0,
                'partial_completion_cuts': 0, 'order_is_program_order': 0, 'order_checked': 0, 'disagreements': 0}
     broke = []
+    records = []
+    exprs = []
+    import time
+    t0 = time.time()
+    # ---- phase 1: the real runs (crash-free, then every cut)
     for prog_def in progs:
         name, m, t, p, ops = prog_def
         seed = rng.randrange(10**6)
         inputs = {k: rng.choice([0, 1, 2, 3, 5, 7, p - 1, p - 2, rng.randrange(p)]) for k, op in enumerate(ops) if op[0] == 'in'}
-        key0 = {'program': name, 'm': m, 't': t, 'p': p, 'ops': [list(map(lambda x: list(x) if isinstance(x, tuple) else x, op)) for op in ops],
+        key0 = {'program': name, 'm': m, 't': t, 'p': p, 'ops': [[list(x) if isinstance(x, tuple) else x for x in op] for op in ops],
                 'inputs': {str(k): v for k, v in inputs.items()}, 'seed': seed}
         plain = plain_values(ops, inputs, p)
         want = {(r, k, plain[op[1]]) for k, op in enumerate(ops) if op[0] == 'out' for r in op[2]}
@@ -249,24 +279,20 @@ def run_part(ctx, programs=None):
             ctx.violation('model-crash crash-free-output-wrong m=%d t=%d' % (m, t),
                           {**key0, 'got': sorted(got0), 'want': sorted(want)})
             continue
-        labels = base['labels']
-        args = coq_args(prog_def, inputs, labels, seed)
+        args = coq_args(prog_def, inputs, base['labels'], seed)
         summary['programs'] += 1
-        # which crashing parties
-        if ctx.tier == 'thorough' or m == 3:
+        if ctx.tier == 'thorough' or m <= 3:
             crashers = list(range(m))
         else:
             crashers = sorted(rng.sample(range(m), 2))
-        exprs = ['x_cf_msgs %s' % args, 'x_cf_results %s' % args]
-        exprs += ['x_prog_order %s %d' % (args, c) for c in range(m)]
-        orders = {}
+        rec = {'prog': prog_def, 'inputs': inputs, 'seed': seed, 'key0': key0, 'want': want, 'base': base, 'got0': got0,
+               'crashers': crashers, 'e0': len(exprs), 'orders': {}, 'cuts': {}}
+        exprs.append('(x_cf_msgs %s, x_cf_results %s)' % (args, args))
+        exprs.append('map (x_prog_order %s) (seq 0 %d)' % (args, m))
         for c in crashers:
-            orders[c] = [(k, d) for (k, d, sz) in base['order'][c]]
-            ordl = '[' + '; '.join('(%d, %d)' % kd for kd in orders[c]) + ']'
+            rec['orders'][c] = [(k, d) for (k, d, sz) in base['order'][c]]
+            ordl = '[' + '; '.join('(%d, %d)' % kd for kd in rec['orders'][c]) + ']'
             exprs.append('x_run_all %s %d %s' % (args, c, ordl))
-        # ---- the real cut runs
-        cut_results = {}
-        for c in crashers:
             sizes = [sz for (_, _, sz) in base['order'][c]]
             for k in range(len(sizes) + 1):
                 off = sum(sizes[:k])
@@ -277,13 +303,24 @@ def run_part(ctx, programs=None):
                     r = real_run(prog_def, inputs, seed, cut=(c, nbytes))
                     summary['cut_runs'] += 1
                     summary['mid_frame_runs'] += kind == 'mid-frame'
-                    cut_results[(c, k, kind)] = (nbytes, r)
-        # ---- the model
-        out = ctx.coq_eval(['MPyC.CrashExec'], exprs, chunk=1)
-        if any(isinstance(v, tuple) and v and v[0] == 'ERROR' for v in out):
-            broke.append({'kind': 'coq-eval', 'case': key0, 'detail': str([v for v in out if isinstance(v, tuple) and v and v[0] == 'ERROR'][:1])[:600]})
+                    rec['cuts'][(c, k, kind)] = (nbytes, r)
+        records.append(rec)
+    t1 = time.time()
+    # ---- phase 2: the model, evaluated in Coq
+    out = ctx.coq_eval(['MPyC.CrashExec'], exprs, chunk=max(1, -(-len(exprs) // 6))) if exprs else []
+    t2 = time.time()
+    summary['seconds_simulator'] = round(t1 - t0, 1)
+    summary['seconds_coq'] = round(t2 - t1, 1)
+    # ---- phase 3: compare
+    for rec in records:
+        name, m, t, p, ops = rec['prog']
+        key0, base, got0, want, crashers = rec['key0'], rec['base'], rec['got0'], rec['want'], rec['crashers']
+        res = out[rec['e0']:rec['e0'] + 2 + len(crashers)]
+        errs = [v for v in res if isinstance(v, tuple) and v and v[0] == 'ERROR']
+        if errs:
+            broke.append({'kind': 'coq-eval', 'case': key0, 'detail': str(errs[0])[:600]})
             continue
-        cf_msgs, cf_res = canon_msgs(out[0]), canon_outs(out[1])
+        cf_msgs, cf_res = canon_msgs(res[0][0]), canon_outs(res[0][1])
         summary['messages_compared'] += len(cf_msgs)
         if cf_msgs != sorted(base['wire']):
             broke.append({'kind': 'crash-free messages', 'case': key0,
@@ -291,31 +328,31 @@ def run_part(ctx, programs=None):
         if cf_res != sorted(got0):
             broke.append({'kind': 'crash-free outputs', 'case': key0, 'model': cf_res, 'impl': sorted(got0)})
         for c in range(m):
-            po = [tuple(x) for x in out[2 + c]]
+            po = [tuple(x) for x in res[1][c]]
             real = [(k, d) for (k, d, sz) in base['order'][c]]
             summary['order_checked'] += 1
             summary['order_is_program_order'] += po == real
             if sorted(po) != sorted(real) or len(set(real)) != len(real):
                 broke.append({'kind': 'send set of party', 'case': key0, 'party': c, 'model': po, 'impl': real})
         for idx, c in enumerate(crashers):
-            allk = out[2 + m + idx]
-            if len(allk) != len(orders[c]) + 1:
+            allk = res[2 + idx]
+            order = rec['orders'][c]
+            if len(allk) != len(order) + 1:
                 broke.append({'kind': 'run_all length', 'case': key0, 'party': c})
                 continue
-            for (c2, k, kind), (nbytes, r) in sorted(cut_results.items()):
+            for (c2, k, kind), (nbytes, r) in sorted(rec['cuts'].items()):
                 if c2 != c:
                     continue
-                key = {**key0, 'crashed': c, 'k': k, 'of': len(orders[c]), 'cut_bytes': nbytes, 'where': kind}
-                if kind == 'boundary':
-                    summary['cuts'] += 1
+                key = {**key0, 'crashed': c, 'k': k, 'of': len(order), 'cut_bytes': nbytes, 'where': kind}
+                summary['cuts'] += kind == 'boundary'
                 if 'error' in r:
                     broke.append({'kind': 'cut run failed', 'case': key, 'detail': r['error']})
                     continue
                 model_outs = canon_outs(allk[k][0])
                 model_msgs = canon_msgs(allk[k][1])
                 impl_outs = sorted((i, kk, v) for i in range(m) if i != c for kk, v in r['outputs'][i].items())
-                all_surv = sorted(o for o in got0 if o[0] != c)
-                partial = 0 < len(model_outs) < len(all_surv)
+                n_surv = sum(1 for o in got0 if o[0] != c)
+                partial = 0 < len(model_outs) < n_surv
                 summary['partial_completion_cuts'] += partial and kind == 'boundary'
                 ctx.case(key, nontrivial=True, kind='model m=%d %s%s' % (m, kind, ' partial-completion' if partial else ''))
                 summary['outputs_compared'] += len(impl_outs)
@@ -325,13 +362,24 @@ def run_part(ctx, programs=None):
                     if (i, kk, v) not in want:
                         ctx.violation('model-crash survivor-output-wrong m=%d t=%d' % (m, t),
                                       {**key, 'party': i, 'output': kk, 'got': v, 'want': [w for w in want if w[:2] == (i, kk)]})
+                bad = None
                 if impl_outs != model_outs:
-                    summary['disagreements'] += 1
-                    broke.append({'kind': 'completed outputs', 'case': key, 'model': model_outs, 'impl': impl_outs})
+                    bad = {'kind': 'completed outputs', 'case': key, 'model': model_outs, 'impl': impl_outs}
                 elif model_msgs != sorted(r['wire']):
+                    bad = {'kind': 'messages on the wire', 'case': key,
+                           'model_only': sorted(set(model_msgs) - r['wire'])[:8], 'impl_only': sorted(r['wire'] - set(model_msgs))[:8]}
+                if bad:
                     summary['disagreements'] += 1
-                    broke.append({'kind': 'messages on the wire', 'case': key,
-                                  'model_only': sorted(set(model_msgs) - r['wire'])[:8], 'impl_only': sorted(r['wire'] - set(model_msgs))[:8]})
+                    broke.append(bad)
+                    if summary['disagreements'] <= 12:
+                        # wider search around the disagreeing cut: other delivery schedules, looking for a wrong value
+                        for s in range(4):
+                            r2 = real_run(rec['prog'], rec['inputs'], rec['seed'], cut=(c, nbytes), policy=('random', rec['seed'] + s))
+                            for i in range(m):
+                                for kk, v in (r2.get('outputs') or {}).get(i, {}).items():
+                                    if i != c and (i, kk, v) not in want:
+                                        ctx.violation('model-crash survivor-output-wrong m=%d t=%d' % (m, t),
+                                                      {**key, 'schedule': 'random %d' % (rec['seed'] + s), 'party': i, 'output': kk, 'got': v})
     ctx.extra['crash_model'] = summary
     ctx.log('crash model correspondence: %s' % summary)
     if summary['programs'] == 0 or summary['cuts'] == 0:
